@@ -196,7 +196,7 @@ def thorough_all_features(ctx, run, ch):
 def last_column_is_copy(val, name, loops):
     # strip the final transpose
     t = val
-    while isinstance(t, Op) and t.op in ("transpose", "contiguous"):
+    while isinstance(t, Op) and t.op in ("transpose", "contiguous", "reshape", "view"):   # layout: C03.R4
         t = t.args[0]
     if name == "vectorised":
         if isinstance(t, Op) and t.op == "cat" and isinstance(t.args[0], (list, tuple)) and len(t.args[0]) == 2 and t.kwd().get("dim", t.args[1] if len(t.args) > 1 else None) == -2:
@@ -217,8 +217,10 @@ def last_column_is_copy(val, name, loops):
         if not (isinstance(v, Op) and v.op == "index" and v.args[0] == base and isinstance(v.args[1], tuple) and v.args[1][-2] == -2):
             return False, f"stored value {str(v)[:80]} is not column T-2 of the same tensor"
         return True, "output[..., -1, :] = output[..., -2, :]"
-    if not (isinstance(t, Op) and t.op == "cat"):
+    if not (isinstance(t, Op) and t.op in ("cat", "stack")):
         return False, f"result is {t.op if isinstance(t, Op) else t}"
+    # cat of (N, 1, H) columns along the time axis or stack of (N, H) columns along a new time axis: which layout comes out is C03.R4's
+    # business (shape engine); here: the sequence is one model output per step 0..T-2 followed by the last of them once more
     seq = t.args[0]
     if not (isinstance(seq, (list, tuple)) and len(seq) == 2 and isinstance(seq[0], Op) and seq[0].op == "forall"):
         return False, f"concatenated sequence has {len(seq) if isinstance(seq, (list, tuple)) else '?'} parts"
@@ -458,7 +460,7 @@ def feature_names_rule(ctx, run):
                              file=str(prog.modules[ci.module].path), line=ci.node.lineno))
     # the lookup chain
     G = "pfhedge.features._getter."
-    gc, gi, gf = prog.functions.get(G + "FeatureFactory.get_class"), prog.functions.get(G + "FeatureFactory.get_instance"), prog.functions.get(G + "get_feature")
+    gc, gi, gf = prog.method(G + "FeatureFactory.get_class"), prog.method(G + "FeatureFactory.get_instance"), prog.functions.get(G + "get_feature")
     if gc is None or gi is None or gf is None:
         raise AnalysisError("anchor vanished: FeatureFactory.get_class / get_instance / get_feature")
     from ..interp import ClassRef
